@@ -188,6 +188,15 @@ def fixed_families():
                "pkgname": "gen", "packages": pk}
         files[".mockery.yml"] = json.dumps(cfg, indent=1)
         fams.append({"kind": "family", "i": -1 - len(fams), "files": files, "placement": tag})
+    # one output file addressed through two spellings of its directory (relative, and through {{.InterfaceDir}}), from a real working directory and
+    # from one reached through a symbolic link: both mocks are in the file in every run
+    for tag, link in (("one-file-two-dir-spellings", False), ("one-file-two-dir-spellings-cwd-via-symlink", True)):
+        files = {"pkg/a.go": "package pkg\n\ntype Alpha interface{ A(x int) error }\n\ntype Beta interface{ B() string }\n\ntype Gamma interface{ C() }\n"}
+        cfg = {"force-file-write": True, "pkgname": "mocks", "filename": "mocks.go",
+               "packages": {MOD + "/pkg": {"interfaces": {"Alpha": {"config": {"dir": "pkg/mocks"}}, "Beta": {"config": {"dir": "{{.InterfaceDir}}/mocks"}},
+                                                           "Gamma": {"config": {"dir": "./pkg/../pkg/mocks/"}}}}}}
+        files[".mockery.yml"] = json.dumps(cfg, indent=1)
+        fams.append({"kind": "family", "i": -1 - len(fams), "files": files, "placement": tag, "via_symlink": link})
     return fams
 
 
@@ -214,6 +223,13 @@ def eval_family(ctx, case):
         shutil.copytree(pristine, root, dirs_exist_ok=True)
 
     strace = core.strace_available()
+    cwd, env_extra = root, None
+    if case.get("via_symlink"):
+        # the working directory is reached through a symbolic link and $PWD says so (the state of a shell after `cd link/mod`)
+        cwd = root.rstrip("/") + "-link"
+        if not os.path.islink(cwd):
+            os.symlink(root, cwd)
+        env_extra = {"PWD": cwd}
     results = []
     orders = set()
     first = None
@@ -221,7 +237,7 @@ def eval_family(ctx, case):
     for run in range(k):
         for attempt in range(3):   # a tracer failure says nothing about mockery: the run is repeated from the same pristine tree
             reset()
-            r = core.run_mockery(ctx, root, [], strace=strace, timeout=600)
+            r = core.run_mockery(ctx, cwd, [], env_extra=env_extra, strace=strace, timeout=600, root=root)
             if not r.tracer_failed:
                 break
             ctx.count("tracer_failures_retried")
@@ -250,7 +266,7 @@ def eval_family(ctx, case):
     # idempotence: run again on top of the previous output (tree currently holds run k's output)
     base = core.snapshot(root)
     for rerun in range(3):
-        r = core.run_mockery(ctx, root, [], timeout=600)
+        r = core.run_mockery(ctx, cwd, [], env_extra=env_extra, timeout=600)
         if r.timed_out:
             return Verdict.inconclusive("watchdog")
         if r.panicked:
@@ -273,7 +289,7 @@ def eval_family(ctx, case):
                 cut = data.rfind(b"\nfunc ")   # drop the last function: an older, shorter generation that still parses up to there
                 data = data[:cut + 1] if cut > 0 else data[: len(data) // 2]
             open(pth, "wb").write(data)
-        r = core.run_mockery(ctx, root, [], timeout=600)
+        r = core.run_mockery(ctx, cwd, [], env_extra=env_extra, timeout=600)
         if r.timed_out:
             return Verdict.inconclusive("watchdog")
         if r.panicked:
